@@ -196,7 +196,8 @@ func wzDef(obj Object) {
 	// 中文无法区分 builtin 还是 unsafe (runtime 只有 1 个函数已经被过滤了)
 	scope := WzUniverse
 	switch obj.Name() {
-	case token.K_unsafe_指针,
+	case token.K_unsafe_Pointer,
+		token.K_unsafe_指针,
 		token.K_unsafe_原生,
 		token.K_unsafe_对齐倍数,
 		token.K_unsafe_字节偏移量,
